@@ -79,3 +79,23 @@ def own_site(eng, site, anchor_qualname):
     fi = eng.prog.funcs.get(site.fn)
     afi = eng.prog.funcs.get(anchor_qualname)
     return fi is not None and afi is not None and fi.mod.short == afi.mod.short and site.fn in eng.private_helpers(fi.mod.short)
+
+
+def cond_roots(x):
+    """parameters an exception's raise conditions talk about (empty set: unknown)"""
+    out = set()
+
+    def go(t):
+        if isinstance(t, tuple):
+            if len(t) == 2 and t[0] == "param":
+                out.add(t)
+                return
+            for y in t:
+                go(y)
+        elif isinstance(t, frozenset):
+            for y in t:
+                go(y)
+
+    for c in x.conds:
+        go(c)
+    return out
